@@ -29,6 +29,18 @@ CLAIMED = {
     "C01": ("CrossHair/z3: 'raises nothing' clause of the WF family over every rule wrapper, accessors, latent post-processing; result construction/rendering on a scripted stream; scorer fallback; duration overflow",
             "Trusted: regex engine contract; WF as precondition (inductive by C02). Not covered: free Unicode text as a solver variable, rrule rule, debug=True generator return. Search-layer totality is decided by the C13-C15 obligations.",
             "§5 C01"),
+    "C05": ("CrossHair/z3 symbolic execution of the absolute-date rule bodies on group stubs vs. exact contracts; two-reference-time equality (TS-INDEP)",
+            "Trusted: token lemmas (group text denotes the written integer), ranking. Bounds: dates 1900..2029 (two-digit years as 2000+yy), reference years 1970..2100.",
+            "§5 C05"),
+    "C07": ("CrossHair/z3 symbolic execution of the range rules and of _latent_time_interval vs. exact ordering/wrap contracts; interval invariant strengthened from counterexamples",
+            "Trusted: WF of arguments incl. the clause 'a clock interval never has start hour > end hour with both <= 12' (inductive, checked in C02), CrossHair's datetime model. Bounds: dates 1990..2029; date+clock ranges on 2 year-month cells quick / 24 thorough; latent ranges on the last two days of those months.",
+            "§5 C07"),
+    "C08": ("CrossHair/z3 symbolic execution of the duration rules; end date compared with start + N units through an independent day-number relation",
+            "Trusted: token lemmas for amount / number-word / unit groups. Bounds: N <= 40 (months <= 13) quick, <= 120 thorough; start dates on 2 / 8 year-month cells.",
+            "§5 C08"),
+    "C20": ("CrossHair/z3 symbolic execution of the date+clock / date+part-of-day / dayname+date / connector rules vs. exact composition contract",
+            "Trusted: the day part and the clock part alone resolve as C03-C06 state; ranking of the glued reading. Bounds: every valid date 1880..2109, every hour/minute.",
+            "§5 C20"),
 }
 
 NOT_YET = {}
